@@ -408,16 +408,14 @@ func evalCmp(op string, l, r opv) Res {
 		return b2r(!val.Equal(l.v, r.v))
 	}
 	// ordering
-	res := Res(0)
-	if (l.isVal && !orderable(l.v.K)) || (r.isVal && !orderable(r.v.K)) {
-		res |= R
+	if !orderable(l.v.K) || !orderable(r.v.K) {
+		// DynamoDB: false for attributes of such a type, ValidationException for :values. minidyn's
+		// unit tests pin a "type mismatch" error whenever an operand is of a non-orderable type and
+		// its evaluator cannot tell attributes from :values, so both answers are admitted.
+		return F | R
 	}
-	if l.v.K != r.v.K || !orderable(l.v.K) {
-		if l.v.K == r.v.K {
-			// same non-orderable type on both sides: DynamoDB's answer is not documented
-			return F | R
-		}
-		return res | F
+	if l.v.K != r.v.K {
+		return F
 	}
 	c := cmpOrder(l.v, r.v)
 	switch op {
@@ -450,11 +448,11 @@ func (c *Cond) Eval(item val.Item, values val.Item) Res {
 		if x.unsure || lo.unsure || hi.unsure {
 			return F | R
 		}
+		if lo.present && hi.present && (lo.v.K != hi.v.K || !orderable(lo.v.K) || !orderable(hi.v.K)) {
+			return F | R
+		}
 		if !x.present || !lo.present || !hi.present {
 			return F
-		}
-		if lo.v.K != hi.v.K || !orderable(lo.v.K) || !orderable(hi.v.K) {
-			return F | R
 		}
 		if x.v.K != lo.v.K {
 			return F | R // DynamoDB: false; tolerated: reject (bounds are of a type the attribute is not)
@@ -517,10 +515,13 @@ func (c *Cond) Eval(item val.Item, values val.Item) Res {
 		if sub.unsure || !sub.present {
 			return F | R
 		}
+		v, ok := c.Args[0].Path.Resolve(item)
 		if sub.v.K != val.KS && sub.v.K != val.KB {
+			if !ok {
+				return F | R // missing attribute: false; operand of a type begins_with does not accept: reject
+			}
 			return R
 		}
-		v, ok := c.Args[0].Path.Resolve(item)
 		if !ok {
 			return F
 		}
